@@ -208,7 +208,7 @@ func (p *Parser) expectPeekVarOrAutoVar(scriptName string) (*string, *ast.Comman
 		}
 		varName := cmd.VarName
 		if cmd.VarNameArgPosition != nil {
-			if *cmd.VarNameArgPosition > len(commandStmt.Args)-1 {
+			if *cmd.VarNameArgPosition < 0 || *cmd.VarNameArgPosition > len(commandStmt.Args)-1 {
 				return nil, nil, nil, NewRangeParseError(commandToken, p.curToken, fmt.Sprintf("auto-var command %s has an arg position of %d, but only %v arguments were provided", cmdName, *cmd.VarNameArgPosition, len(commandStmt.Args)))
 			}
 			varName = commandStmt.Args[*cmd.VarNameArgPosition]
